@@ -475,6 +475,21 @@ def _native_images(tier="quick", seed=0):
             twins = sorted({str(r_.target_part.partname) for r_ in prs_c.part.package.iter_rels() if not r_.is_external and r_.reltype == _RT.IMAGE and r_.target_part.blob == blob_})
             if len(twins) != 1:
                 bad = bad or ("dedup", "%s: the bytes of %s added again are stored a second time: %s" % (os.path.basename(f), name_, twins))
+    # a picture reports the image it shows now: after another picture was removed (shape deleted, relationship dropped) its relationship
+    # id is handed out again, and whatever was read through the old one says nothing about the new one
+    prs_k = Presentation()
+    sl_k = prs_k.slides.add_slide(prs_k.slide_layouts[6])
+    blob_a, blob_b = make("PNG", (4, 4), None, (200, 1, 1)), make("JPEG", (9, 5), None, (1, 200, 1))
+    pic_a = sl_k.shapes.add_picture(io.BytesIO(blob_a), Emu(0), Emu(0))
+    _ = (pic_a.image.blob, pic_a.image.size)
+    rid_a = pic_a._pic.blip_rId
+    pic_a._element.getparent().remove(pic_a._element)
+    sl_k.part.drop_rel(rid_a)
+    pic_b = sl_k.shapes.add_picture(io.BytesIO(blob_b), Emu(0), Emu(0))
+    evals += 1
+    if pic_b.image.blob != blob_b or pic_b.image.size != (9, 5) or pic_b.image.content_type != "image/jpeg":
+        bad = bad or ("bytes", "picture added after another was removed (relationship id %s%s): image reports %d bytes, %s, %s; the file has %d bytes, (9, 5), image/jpeg" % (
+            pic_b._pic.blip_rId, " reused" if pic_b._pic.blip_rId == rid_a else "", len(pic_b.image.blob), pic_b.image.size, pic_b.image.content_type, len(blob_b)))
     names = [str(p.partname) for p in set(seen.values())]
     if len(names) != len(set(names)):
         bad = bad or ("names", "two image parts share a part name")
